@@ -53,6 +53,19 @@ def run(ctx):
   base = ctx.cls('encoder_decoder:OneHotEncoding')
   subs = iface.check_interface(ctx, base, 'IFACE/one-hot')
   ctx.require(len(subs) >= 6, 'only %d concrete OneHotEncoding subclasses found' % len(subs))
+  from sa import pitfalls
+  scope = []
+  for c in [base] + list(subs):
+    for q, fi in sorted(c.module.all_functions.items()):
+      if q.startswith(c.qualname + '.') and fi not in scope:
+        scope.append(fi)
+  pitfalls.apply(ctx, 'PITFALL', scope, ['narrowing-cast'], {
+      'narrowing-cast': 'class indices beyond the kept bits decode to the event of a smaller index, so decoding is not injective and encode(decode(i)) != i'})
+  for q in ('chord_symbol_root', 'chord_symbol_bass'):
+    fi_ = ctx.func('chord_symbols_lib:' + q)
+    v_, why_ = pitfalls.mod_reduced(fi_)
+    ctx.ob('PITCHCLASS/reduced', fi_, fi_.node, v_ == pitfalls.OK, why_, construct='%s returns a pitch class in 0..11' % q, definite=(v_ == pitfalls.BAD),
+           unknown=why_ if v_ == pitfalls.UNKNOWN else None)
   melody(ctx)
   chords(ctx)
   performance(ctx)
